@@ -776,6 +776,8 @@ class Fn:
             two = t and len(b["succs"]) == 2 and t.get("kind") != "SwitchStmt"
             cond = sa.effective_cond(t) if two else None
             pre[bid] = dict(st)
+            if two and cond is not None and getattr(self, "cond_hook", None):
+                self.cond_hook(cond, st, t.get("line"))
             if t and not two and len(b["succs"]) >= 2:
                 tags, _ = self.mentioned_tags(t.get("cond") or t.get("switch_cond") or {}, st)
                 self.blur(st, tags, branch=bid)
@@ -1315,3 +1317,97 @@ def run_den_one(prop="C12", tier="quick"):
     res["exhaustive"] = True
     return res
 
+
+
+# ---- sizes handed to MPZ_REALLOC / _mpz_realloc are limb counts (C04) ------------------------------------------------------------
+def analyse_realloc_sizes(fn, prop, F, stats):
+    """R-SIGN.alloc: the new size given to _mpz_realloc (directly or through MPZ_REALLOC, whose test `n > ALLOC (z)` is simply false for a
+    negative n, so that nothing is enlarged and the copy that follows overruns the block) is never a quantity for which a negative sign is
+    attained - e.g. the signed size of an operand where its absolute value is meant."""
+    def alloc_compare(c):
+        """X for  X > z->_mp_alloc  /  z->_mp_alloc < X  (the growth test of MPZ_REALLOC and of the hand-written forms)"""
+        c = sa.strip_expect(c)
+        neg = False
+        while isinstance(c, dict) and c.get("k") == "unop" and c["op"] == "!":
+            c, neg = sa.strip_expect(c["e"]), not neg
+        if not (isinstance(c, dict) and c.get("k") == "binop" and c["op"] in ("<", ">", "<=", ">=")):
+            return None
+        l, r = _strip(c["l"]), _strip(c["r"])
+        if isinstance(r, dict) and r.get("k") == "member" and r["field"] == "_mp_alloc" and c["op"] in (">", ">="):
+            return l
+        if isinstance(l, dict) and l.get("k") == "member" and l["field"] == "_mp_alloc" and c["op"] in ("<", "<="):
+            return r
+        return None
+
+    if not any(alloc_compare(sa.effective_cond(b["term"])) is not None for b in fn["blocks"] if b.get("term") and len(b["succs"]) == 2
+               and b["term"].get("cond")):
+        return
+    E = Fn(fn, {})
+    found = {}
+    scalar_names = {p["name"] for p in fn["params"] if not struct_of(p.get("ct"))}
+
+    def hook(cond, st, line):
+        x = alloc_compare(cond)
+        if x is None or st.get(UNSURE):
+            return
+        v = E.eval(x, st)
+        rec = found.setdefault(line, [0, 0, None])
+        rec[0] |= v.signs
+        # only the signs of operand OBJECTS are the caller's free choice here; a scalar size argument is bound by the function's contract
+        if v.attained & N and v.tags and not (v.tags & scalar_names):
+            rec[1] |= N
+            rec[2] = sorted(v.tags or ())
+    E.cond_hook = hook
+    outs = [p for p in fn["params"] if struct_of(p.get("ct")) and "*" in p.get("ct", "") and not p.get("pc")]
+    if outs:
+        scen = list(scenarios(E, outs[0]["id"]))
+    else:
+        scen = [("distinct", {})]
+    for label, unify in scen[:4]:
+        ent = entry_model(E)
+        if E.run(ent, unify, {o["id"] for o in outs}) is None:
+            stats["budget"] += 1
+    for line, (signs, bad, tags) in found.items():
+        stats["realloc_sites"] += 1
+        if bad:
+            F.append(Finding(prop, "R-SIGN.alloc", fn["file"], line, fn["name"], "negative-realloc-size",
+                             "%s passes a size to _mpz_realloc / MPZ_REALLOC at line %d that is negative for some operands (its sign comes from %s): "
+                             "MPZ_REALLOC's test `n > ALLOC (z)` is then false, nothing is enlarged, and the limbs stored afterwards overrun the block"
+                             % (fn["name"], line, ", ".join(tags) or "the operands")))
+        elif signs & N == 0:
+            stats["proved"] += 1
+        else:
+            stats["undecided"] += 1
+
+
+def run_realloc(prop="C04", tier="quick"):
+    res = dict(findings=[], stats=collections.Counter(), samples=[], notes=[])
+    cfg = sa.cfg_built()
+    cfg = sa.Config("built-sign", units=cfg.units, flags=list(cfg.flags), extra_files=[FIXTURE])
+    ex = sa.export(cfg)
+    sa.check_errors(ex)
+    fx = []
+    for path, fn in ex.functions():
+        if path == FIXTURE:
+            if fn["name"].startswith("fix_realloc_"):
+                analyse_realloc_sizes(fn, prop, fx, collections.Counter())
+            continue
+        rel = relpath(path)
+        if not (rel.startswith("mpz/") or rel.startswith("mpq/") or rel.startswith("mpf/")):
+            continue
+        try:
+            analyse_realloc_sizes(fn, prop, res["findings"], res["stats"])
+        except RecursionError:
+            res["stats"]["budget"] += 1
+    got = collections.Counter(f.function for f in fx)
+    if not got.get("fix_realloc_bad") or got.get("fix_realloc_good"):
+        raise AnalysisBroken("R-SIGN.alloc fixtures: %r" % dict(got))
+    st = res["stats"]
+    if st["realloc_sites"] < 30:
+        raise AnalysisBroken("R-SIGN.alloc: only %d _mpz_realloc sites found (floor 30)" % st["realloc_sites"])
+    res["stats"] = dict(st)
+    res["obligations"] = st["realloc_sites"]
+    res["undecided"] = st.get("undecided", 0)
+    res["notes"].append("fixtures: 1 positive fired, 1 negative silent")
+    res["exhaustive"] = True
+    return res
